@@ -408,11 +408,13 @@ def run_depth_provenance(rec, F):
         return
     # premise 1: unwinding restores stack_start + slot_depth
     p1 = False
+    unwind_adds_params = False
     for bi, t in su.calls():
         if lastseg(t["f"]) in ("add", "offset") and len(t["args"]) == 2:
             d0, d1 = str(sem.desc_operand(su, t["args"][0])), str(sem.desc_operand(su, t["args"][1]))
             if "stack_start" in d0 and "slot_depth" in d1:
                 p1 = True
+                unwind_adds_params = "parameter_count" in d1 or "'arity'" in d1 or "arg_count" in d1
     # premise 2: push_frame puts stack_start below the arguments (stack_top - (argc + 1))
     p2 = False
     for bi, t in pf.calls():
@@ -455,9 +457,12 @@ def run_depth_provenance(rec, F):
                     p = op_place(a)
                     if p:
                         work.append(p["l"])
-    ok = 1 in feeds or bool(feeds & (tainted - {1}))
-    rec.inst(R, "PushHandler depth depends on the parameter count", ok=ok, loc=ase.loc)
-    if not ok:
+    compile_dep = 1 in feeds or bool(feeds & (tainted - {1}))
+    ok = compile_dep != unwind_adds_params
+    rec.inst(R, "the arguments are counted exactly once in the restore depth (%s)" % ("at unwind: slot_depth + parameter_count" if unwind_adds_params else "in the compiler" if compile_dep else "nowhere"), ok=ok, loc=ase.loc)
+    if compile_dep and unwind_adds_params:
+        rec.finding(R, "F2.a/depth-counts-arity-twice", "both apply_stack_effects and Fiber::stack_unwind add the parameter count to the handler's restore depth: after a caught error the stack top is restored too high", loc=su.loc, fn=su.path)
+    elif not ok:
         rec.finding(R, "F2.a/depth-ignores-arity", "apply_stack_effects computes every handler's restore depth from the constant 1 plus stack effects, never from the function's arity, although the frame's stack_start lies below the arguments: after a caught error in a function with parameters the stack top is restored too low and locals are overwritten", loc=ase.loc, fn=ase.path)
 
 
